@@ -69,6 +69,7 @@ func (k Keeper) HandleRelay(ctx sdk.Ctx, relay pc.Relay) (*pc.RelayResponse, sdk
 		}
 		return nil, err
 	}
+	pc.VerifYieldAt("relay.validated")
 	// store the proof before execution, because the proof corresponds to the previous relay
 	relay.Proof.Store(maxPossibleRelays, servicerNode.EvidenceStore)
 	// attempt to execute
